@@ -44,7 +44,7 @@ TUpsert   == IsEv("Upsert") /\ Upsert(E.id, E.v, E.p, E.ok)
 TBatch    == IsEv("UpsertBatch") /\ UpsertBatch(Items(E.items), E.ok)
 TDelete   == IsEv("Delete") /\ Delete(E.id, E.ok)
 TOptimize == IsEv("Optimize") /\ Optimize(E.ok)
-Strict == ~(FConsolidateTombstones \/ FBufferBlind)
+Strict == ~(FConsolidateTombstones \/ FBufferBlind \/ ConsolidateBatch # 0)
 
 \* reads: Get, Query, or all reads the driver made after one mutating call packed into one Observe line (the check
 \* script packs them; a rejected Observe line is validated again unpacked to name the call that disagrees)
